@@ -44,6 +44,10 @@ CLAIMED["C18"] = dict(technique="rapid-generated configurations (flag x environm
 CLAIMED["C14"] = dict(technique="rapid-generated programs x configurations (scan-tests, exclude-paths tokens drawn from the program's own file and directory names): location predicate, comment-stripping metamorphic relation, and model exactness under the configuration",
     text="For generated programs with regular and test files and random scan-tests / exclude-paths settings: no diagnostic may lie in a file the reference skip predicate excludes (never TONL in a test file); stripping every comment from the excluded files must leave all other files' diagnostics unchanged; and the IMM/CTOR/TONL/PKGO diagnostics must equal the model expectation in which excluded files contribute neither annotations nor sites.",
     note="reference skip predicate restated (suffix _test.go unless scan-tests; absolute file name contains a token); external test packages and excluded directories are covered by C18's probe, not generated here", ref="DESIGN.md section 3, C14")
+
+CLAIMED["C06"] = dict(technique="differential testing across the three real drivers and across root sets, metamorphic locality relation, and gob round trip of rapid-generated fact values",
+    text="Generated multi-package programs (with long and unusual annotation values) are analysed in-process sequentially, in-process in parallel with the driver's fact SanityCheck, by the standalone binary and by go vet -vettool with facts on disk - all four diagnostic sets must be equal; every package analysed alone must get the diagnostics it gets in the full run; editing annotations of a package that p does not directly import must not change p's diagnostics; rapid-generated PackageAnnotations values must survive gob through all six fact types.",
+    note="external drivers are budgeted (quick: 24 programs, thorough: 3000); in-process relations run on every program; vet and binary are compared on the packages both analyse (sets normalised per file)", ref="DESIGN.md section 3, C06")
 ALL = ["C%02d" % i for i in range(1, 20)]
 NA_REASON = {}
 def main():
